@@ -195,6 +195,42 @@ func c09(r *rng, tier string, o *out) {
 		}
 		finishRun(o, "C09", sr, cacheMB, len(sr.reqs) > 2, fmt.Sprintf("archives=%d", m))
 	}
+	// the same with replacements: an archive is replaced while its header and directories are cached, then several requests run
+	// concurrently; their stale conditional reads are refused, each purges and asks again - the refetches must be shared as well
+	for c := 0; c < n/2; c++ {
+		cacheMB := []int{64, 64, 1}[r.intn(3)]
+		sr := newSrvRun(cacheMB)
+		nextTag := 1
+		v := genVersion(r, 0, 0, nextTag, false)
+		nextTag++
+		sr.versions = append(sr.versions, v)
+		sr.install(v)
+		names := []int{0}
+		drive(r, sr, 1+r.intn(2), names, nil) // warm the cache
+		repl := 0
+		replace := func() {
+			if repl >= 3 {
+				return
+			}
+			repl++
+			v := genVersion(r, len(sr.versions), 0, nextTag, false)
+			nextTag++
+			sr.versions = append(sr.versions, v)
+			sr.install(v)
+		}
+		replace()
+		var between func()
+		if r.chance(40) {
+			between = replace
+		}
+		drive(r, sr, 2+r.intn(4), names, between)
+		sr.checkResponses(false)
+		sr.checkCoalescing()
+		if sr.sizeViol {
+			sr.viol = append(sr.viol, fmt.Sprintf("reported cache size reaches the limit %d", sr.limit))
+		}
+		finishRun(o, "C09", sr, cacheMB, true, fmt.Sprintf("warm-then-replaced=%d", repl))
+	}
 }
 
 // c08systematic: one tile request against one archive name, every placement of up to two replacements among the
@@ -419,8 +455,18 @@ func c08backendRun(kind string, seed uint64) []string {
 			id += uint64(run) + uint64(ir.intn(3))
 		}
 		zmax, _, _ := pmtiles.IDToZxy(es[len(es)-1].ID + uint64(es[len(es)-1].Run))
-		a := buildArchive(vr, es, vr.bytes(int(off)), archOpts{tree: treeOpts{depth: vr.intn(2), fan: 2, gzip: vr.chance(50), shorthand: true},
-			tileType: 2, tileComp: uint8(1 + tag%4), meta: fmt.Sprintf(`{"v":%d}`, tag), minZoom: 0, maxZoom: zmax, pad: tag * 5})
+		data := vr.bytes(int(off))
+		depth, gzipped, ts := vr.intn(2), vr.chance(50), vr.next()
+		build := func(pad int) *Archive {
+			return buildArchive(&rng{s: ts}, es, data, archOpts{tree: treeOpts{depth: depth, fan: 2, gzip: gzipped, shorthand: true},
+				tileType: 2, tileComp: uint8(1 + tag%4), meta: fmt.Sprintf(`{"v":%d}`, tag), minZoom: 0, maxZoom: zmax, pad: pad})
+		}
+		a := build(tag * 5)
+		if seed%2 == 0 { // every version of this archive has the same file size (the layouts and the bytes still differ)
+			if n := len(build(0).Bytes); n < 3000 {
+				a = build(3000 - n)
+			}
+		}
 		return &srvVersion{id: tag - 1, name: 0, tag: tag, arch: a}
 	}
 	var srv *pmtiles.Server
@@ -429,7 +475,8 @@ func c08backendRun(kind string, seed uint64) []string {
 		put = func(v *srvVersion) {
 			tmp := filepath.Join(dir, "upload.tmp")
 			os.WriteFile(tmp, v.arch.Bytes, 0o644)
-			mt := time.Unix(1700000000+int64(v.tag)*3, 0)
+			// successive versions are often published within the same second (sub-second modification times differ)
+			mt := time.Unix(1700000000+int64(v.tag)/3, int64(v.tag%3)*333000000+1234)
 			os.Chtimes(tmp, mt, mt)
 			os.Rename(tmp, filepath.Join(dir, "a0.pmtiles"))
 		}
@@ -501,7 +548,7 @@ func c08(r *rng, tier string, o *out) {
 		nb = 10
 	}
 	for c := 0; c < nb; c++ {
-		line := fmt.Sprintf("backend %s %d", []string{"file", "http"}[c%2], r.next()%1000000)
+		line := fmt.Sprintf("backend %s %d", []string{"file", "http"}[c%2], (r.next()%500000)*2+uint64(c/2)%2) // even seeds: versions of equal file size
 		impl, viol := runCase("C08", line)
 		idx := o.emit(line, impl, true)
 		o.count("real_backend_" + []string{"file", "http"}[c%2])
